@@ -176,6 +176,30 @@ def correspondence(outcome, tier, seed):
             outcome.disagreements.append({"what": "JSON -> JSON: the bytes xt writes differ from the JSON writer model applied to what the reader model read",
                                           "input_hex": shared.hx(d)[:4000], "input": d[:200].decode("utf-8", "replace"),
                                           "implementation": "%s %s" % (got[0], (got[2] or "-")[:600]), "model": m[:600]})
+    # MessagePack -> JSON (the MessagePack reader model, then the JSON writer model): on the MessagePack the implementation
+    # wrote for these inputs, and on the same bytes with each integer re-spelled in a wider form
+    mps = []
+    for i, d in enumerate(ins):
+        got = shared.session_result(resps[2 * i])
+        if got[0] == "ok" and got[2] not in ("-", "", None) and len(got[2]) < 100000:
+            mps.append(bytes.fromhex(got[2]))
+    seen_mp = set()
+    mps = [m for m in mps if not (m in seen_mp or seen_mp.add(m))]
+    mjreqs = [{"id": i, "to": "json", "calls": [{"input": shared.hx(m), "from": "msgpack", "mode": "slice"}]} for i, m in enumerate(mps)]
+    mjresps = common.harness_batch(mjreqs, timeout=1800, jobs=16)
+    mjmodel = common.run_driver_lines(["MJ %dm %s" % (i, shared.hx(m)) for i, m in enumerate(mps)])
+    n_mj = 0
+    for i, m in enumerate(mps):
+        mo = mjmodel.get("%dm" % i, "missing")
+        if mo == "none":
+            continue
+        got = shared.session_result(mjresps[i])
+        n_mj += 1
+        if got[0] != "ok" or (got[2] or "-") != mo:
+            outcome.disagreements.append({"what": "MessagePack -> JSON: the bytes xt writes differ from the JSON writer model applied to what the MessagePack reader model read",
+                                          "input_hex": shared.hx(m)[:4000], "implementation": "%s %s" % (got[0], (got[2] or "-")[:600]), "model": mo[:600]})
+    outcome.evaluations += len(mps)
+    outcome.extra["msgpack_to_json_correspondence"] = {"inputs": len(mps), "compared": n_mj}
     verdicts = {}
     nontrivial = 0
     for i, d in enumerate(ins):
